@@ -60,40 +60,40 @@ Proof. exact getters_raise_before_solved. Qed.
 Print Assumptions C13_getters_raise_before_solved.
 
 (* ---------------------------------------------------------------- MinPathCover *)
-Theorem C13_mpc_search_sound : forall lb ne sts k,
-  res (mpc_solve lb ne sts) = Solved k ->
-  lb <= k < ne /\
-  map status_of (firstn (used (mpc_solve lb ne sts)) sts) = repeat Infeasible (k - lb) ++ [Optimal].
+Theorem C13_mpc_search_sound : forall excl lb ne sts k,
+  res (mpc_solve excl lb ne sts) = Solved k ->
+  lb <= k < upper excl ne /\
+  map status_of (firstn (used (mpc_solve excl lb ne sts)) sts) = repeat Infeasible (k - lb) ++ [Optimal].
 Proof. exact mpc_search_sound. Qed.
 Print Assumptions C13_mpc_search_sound.
 
-Theorem C13_mpc_search_inconclusive : forall lb ne sts p,
-  inconclusive_at sts p -> p < used (mpc_solve lb ne sts) -> res (mpc_solve lb ne sts) = NotSolved.
+Theorem C13_mpc_search_inconclusive : forall excl lb ne sts p,
+  inconclusive_at sts p -> p < used (mpc_solve excl lb ne sts) -> res (mpc_solve excl lb ne sts) = NotSolved.
 Proof. exact mpc_search_inconclusive. Qed.
 Print Assumptions C13_mpc_search_inconclusive.
 
-Theorem C13_mpc_search_inconclusive_first : forall lb ne pre x post,
+Theorem C13_mpc_search_inconclusive_first : forall excl lb ne pre x post,
   Forall (fun y => status_of y = Infeasible) pre -> conclusive (status_of x) = false ->
-  res (mpc_solve lb ne (pre ++ x :: post)) = NotSolved.
+  res (mpc_solve excl lb ne (pre ++ x :: post)) = NotSolved.
 Proof. exact mpc_search_inconclusive_first. Qed.
 Print Assumptions C13_mpc_search_inconclusive_first.
 
 (* ---------------------------------------------------------------- MinPathCoverCycles *)
-Theorem C13_mpcc_search_sound : forall lb ne sts k,
-  res (mpcc_solve lb ne sts) = Solved k ->
-  lb <= k < ne /\
-  map status_of (firstn (used (mpcc_solve lb ne sts)) sts) = repeat Infeasible (k - lb) ++ [Optimal].
+Theorem C13_mpcc_search_sound : forall excl lb ne sts k,
+  res (mpcc_solve excl lb ne sts) = Solved k ->
+  lb <= k < upper excl ne /\
+  map status_of (firstn (used (mpcc_solve excl lb ne sts)) sts) = repeat Infeasible (k - lb) ++ [Optimal].
 Proof. exact mpcc_search_sound. Qed.
 Print Assumptions C13_mpcc_search_sound.
 
-Theorem C13_mpcc_search_inconclusive : forall lb ne sts p,
-  inconclusive_at sts p -> p < used (mpcc_solve lb ne sts) -> res (mpcc_solve lb ne sts) = NotSolved.
+Theorem C13_mpcc_search_inconclusive : forall excl lb ne sts p,
+  inconclusive_at sts p -> p < used (mpcc_solve excl lb ne sts) -> res (mpcc_solve excl lb ne sts) = NotSolved.
 Proof. exact mpcc_search_inconclusive. Qed.
 Print Assumptions C13_mpcc_search_inconclusive.
 
-Theorem C13_mpcc_search_inconclusive_first : forall lb ne pre x post,
+Theorem C13_mpcc_search_inconclusive_first : forall excl lb ne pre x post,
   Forall (fun y => status_of y = Infeasible) pre -> conclusive (status_of x) = false ->
-  res (mpcc_solve lb ne (pre ++ x :: post)) = NotSolved.
+  res (mpcc_solve excl lb ne (pre ++ x :: post)) = NotSolved.
 Proof. exact mpcc_search_inconclusive_first. Qed.
 Print Assumptions C13_mpcc_search_inconclusive_first.
 
@@ -172,7 +172,7 @@ Theorem C13_mfd_search_sound : forall ex P sts k,
   (lbk o = lb0 P \/
    (use_mgs P = true /\ exists kg m, lbk o = Nat.max (lb0 P) kg /\ lb0 P <= kg /\ m <= aux o /\
       map status_of (firstn m sts) = repeat Infeasible (kg - lb0 P) ++ [Optimal])) /\
-  lbk o <= k < nedges P /\ aux o <= used o /\
+  lbk o <= k < upper (upper_excl P) (nedges P) /\ aux o <= used o /\
   exists tail,
     map status_of (firstn (used o - aux o) (skipn (aux o) sts)) = repeat Infeasible (k - lbk o) ++ tail /\
     (tail = [Optimal] \/
@@ -206,7 +206,7 @@ Theorem C13_mfdc_search_sound : forall P sts k,
   (lbk o = lb0 P \/
    (use_mgs P = true /\ exists kg m, lbk o = Nat.max (lb0 P) kg /\ lb0 P <= kg /\ m <= aux o /\
       map status_of (firstn m sts) = repeat Infeasible (kg - lb0 P) ++ [Optimal])) /\
-  lbk o <= k < nedges P /\ aux o <= used o /\
+  lbk o <= k < upper (upper_excl P) (nedges P) /\ aux o <= used o /\
   over P (used o) = false /\
   exists tail,
     map status_of (firstn (used o - aux o) (skipn (aux o) sts)) = repeat Infeasible (k - lbk o) ++ tail /\
@@ -246,19 +246,22 @@ Proof. vm_compute. reflexivity. Qed.
 
 (* the loops do solve, and an inconclusive status in first / middle / last position stops them *)
 Example C13_search_nonvacuous :
-  res (mpc_solve 1 5 [i_; i_; o_]) = Solved 3 /\ used (mpc_solve 1 5 [i_; i_; o_]) = 3 /\
-  res (mpc_solve 1 5 [t_; o_]) = NotSolved /\ res (mpc_solve 1 5 [i_; u_; o_]) = NotSolved /\
-  res (mpc_solve 1 5 [i_; i_; i_; c_]) = NotSolved /\ used (mpc_solve 1 5 [i_; i_; i_; c_]) = 4 /\
+  res (mpc_solve true 1 5 [i_; i_; o_]) = Solved 3 /\ used (mpc_solve true 1 5 [i_; i_; o_]) = 3 /\
+  res (mpc_solve true 1 5 [t_; o_]) = NotSolved /\ res (mpc_solve true 1 5 [i_; u_; o_]) = NotSolved /\
+  res (mpc_solve true 1 5 [i_; i_; i_; c_]) = NotSolved /\ used (mpc_solve true 1 5 [i_; i_; i_; c_]) = 4 /\
   res (mgs_solve false 1 4 [i_; t_; o_]) = NotSolved /\ res (mgs_solve true 1 4 [i_; t_; o_]) = Solved 3 /\
   (* MinFlowDecomp: MinGenSet [i_; o_] gives lb 2, guessed weights o_ with 3 paths, main loop k=2 i_, k=3 presolved *)
-  mfd_solve false false (mkfd 1 6 true 4 true 3 never never) [i_; o_; o_; i_] = mkout (Solved 3) 4 3 2 /\
+  mfd_solve false false (mkfd 1 true 6 true 4 true 3 never never) [i_; o_; o_; i_] = mkout (Solved 3) 4 3 2 /\
   (* time limit in the guessed-weights model: plain search, still certified *)
-  mfd_solve false false (mkfd 1 6 true 4 true 3 never never) [i_; o_; t_; i_; o_] = mkout (Solved 3) 5 3 2 /\
+  mfd_solve false false (mkfd 1 true 6 true 4 true 3 never never) [i_; o_; t_; i_; o_] = mkout (Solved 3) 5 3 2 /\
   (* time limit in the main loop *)
-  res (mfd_solve true true (mkfd 1 6 true 4 true 3 never never) [i_; o_; o_; t_]) = NotSolved /\
+  res (mfd_solve true true (mkfd 1 true 6 true 4 true 3 never never) [i_; o_; o_; t_]) = NotSolved /\
   (* MinFlowDecompCycles: elapsed-time exit after the second invocation *)
-  res (mfdc_solve true (mkfd 1 6 false 0 false 0 never (fun n => Nat.leb 2 n)) [i_; o_]) = NotSolved /\
-  res (mfdc_solve true (mkfd 1 6 false 0 false 0 never never) [i_; o_]) = Solved 2.
+  res (mfdc_solve true (mkfd 1 true 6 false 0 false 0 never (fun n => Nat.leb 2 n)) [i_; o_]) = NotSolved /\
+  res (mfdc_solve true (mkfd 1 true 6 false 0 false 0 never never) [i_; o_]) = Solved 2 /\
+  (* upper end: exclusive (pinned tree) misses k = |E|, inclusive (since 67a34b1) reaches it *)
+  res (mpc_solve true 1 2 [i_; o_]) = NotSolved /\ res (mpc_solve false 1 2 [i_; o_]) = Solved 2 /\
+  res (mpc_solve false 1 2 [i_; t_]) = NotSolved.
 Proof. vm_compute. repeat split; reflexivity. Qed.
 
 (* NumPathsOptimization: skips unsolved k (by design) but returns only a model that was solved *)
